@@ -306,8 +306,15 @@ def main(argv):
             any_new = True
             fr.diffs = new_diffs
             oracle = P.ORACLE_KINDS.get(fr.family, P.ORACLE_KINDS["*"])
-            kinds = {re.search(r"kind=(\S+)", d).group(1) if re.search(r"kind=(\S+)", d) else "?" for d in new_diffs}
-            is_oracle = bool(kinds & oracle)
+            pats = [re.compile(x) for x in getattr(P, "ORACLE_PATTERNS", {}).get(fr.family, [])]
+            def is_or(d):
+                m = re.search(r"kind=(\S+)", d)
+                return (m is not None and m.group(1) in oracle) or any(px.search(d) for px in pats)
+            odiffs = [d for d in new_diffs if is_or(d)]
+            is_oracle = bool(odiffs)
+            if odiffs:
+                # minimise on the first direct property failure, and list those first
+                fr.diffs = odiffs + [d for d in new_diffs if d not in odiffs]
             mini = minimise(pid, fr, tier, seed, workdir)
             src = mini or fr
             payload = {"kind": "property-fails-on-implementation" if is_oracle else "correspondence-broken",
